@@ -795,6 +795,202 @@ example : (run "u" "status typo" [.ok (.str "3.0"), .ok (.infos [])]).outs = ["t
       ["typo: ERROR (no such process)", "g: ERROR (no such group)"] := by decide
 
 
+/-! ## add / remove / pid: one request and one line per name, whatever fault the server raises for a name -/
+
+/-- an answer the server side gives to a per-name request: `True`, or one of the faults the method raises
+    (`serverCodes_*`, read from rpcinterface.py) -/
+def NameAns (codes : List Int) : Ans → Prop
+  | .ok .unit => True
+  | .fault c _ => c ∈ codes
+  | _ => False
+
+/-- one step of a per-name loop: consumes one answer, makes one call, writes exactly one line, raises nothing -/
+def OneLine (f : S → S) (s : S) : Prop :=
+  (f s).err = none ∧ (f s).outs.length = s.outs.length + 1 ∧ (f s).p.calls.length = s.p.calls.length + 1 ∧
+  (f s).p.script = s.p.script.tail
+
+theorem addOne_one_line (name : String) (a : Ans) (rest : List Ans) (s : S) (h : s.err = none)
+    (hs : s.p.script = a :: rest) (ha : NameAns serverCodes_add a) : OneLine (addOne name) s := by
+  unfold OneLine addOne rpc guard
+  simp only [h, hs, Option.isSome_none, Bool.false_eq_true, if_false]
+  cases a with
+  | ok v => cases v <;> simp [NameAns] at ha; simp [expectUnit, out, emit, guard, h]
+  | fault c t =>
+    have hc : c = 6 ∨ c = 10 ∨ c = 90 := by simpa [NameAns, serverCodes_add, ctl_gen] using ha
+    rcases hc with rfl | rfl | rfl <;> simp [ctl_gen, out, emit, setExit, setP, guard, h]
+  | proto c => simp [NameAns] at ha
+  | sock e => simp [NameAns] at ha
+
+theorem removeOne_one_line (name : String) (a : Ans) (rest : List Ans) (s : S) (h : s.err = none)
+    (hs : s.p.script = a :: rest) (ha : NameAns serverCodes_remove a) : OneLine (removeOne name) s := by
+  unfold OneLine removeOne rpc guard
+  simp only [h, hs, Option.isSome_none, Bool.false_eq_true, if_false]
+  cases a with
+  | ok v => cases v <;> simp [NameAns] at ha; simp [expectUnit, out, emit, guard, h]
+  | fault c t =>
+    have hc : c = 6 ∨ c = 10 ∨ c = 91 := by simpa [NameAns, serverCodes_remove, ctl_gen] using ha
+    rcases hc with rfl | rfl | rfl <;> simp [ctl_gen, out, emit, setExit, setP, guard, h]
+  | proto c => simp [NameAns] at ha
+  | sock e => simp [NameAns] at ha
+
+theorem oneLine_foldl (f : String → S → S) (codes : List Int)
+    (hf : ∀ name a rest s, s.err = none → s.p.script = a :: rest → NameAns codes a → OneLine (f name) s)
+    (names : List String) (s : S) (h : s.err = none) (hl : names.length ≤ s.p.script.length)
+    (ha : ∀ a ∈ s.p.script.take names.length, NameAns codes a) :
+    (names.foldl (fun s n => f n s) s).err = none ∧
+    (names.foldl (fun s n => f n s) s).outs.length = s.outs.length + names.length ∧
+    (names.foldl (fun s n => f n s) s).p.calls.length = s.p.calls.length + names.length := by
+  induction names generalizing s with
+  | nil => exact ⟨h, rfl, rfl⟩
+  | cons n ns ih =>
+    simp only [List.foldl_cons]
+    cases hsc : s.p.script with
+    | nil => rw [hsc] at hl; simp at hl
+    | cons a rest =>
+      have h1 := hf n a rest s h hsc (ha a (by rw [hsc]; simp))
+      obtain ⟨e1, e2, e3, e4⟩ := h1
+      rw [hsc] at e4
+      have := ih (f n s) e1 (by rw [e4]; rw [hsc] at hl; simpa using hl)
+        (fun x hx => ha x (by rw [hsc]; rw [e4] at hx; simp only [List.tail_cons] at hx; simp [List.take_succ_cons, hx]))
+      refine ⟨this.1, ?_, ?_⟩
+      · rw [this.2.1, e2]; simp only [List.length_cons]; omega
+      · rw [this.2.2, e3]; simp only [List.length_cons]; omega
+
+/-- `add <names>` / `remove <names>`: when the server answers every request with `True` or with any fault
+    addProcessGroup / removeProcessGroup can raise -- BAD_NAME, ALREADY_ADDED, STILL_RUNNING and SHUTDOWN_STATE
+    (F45) -- every name is asked about and gets exactly one line; no fault ends the action early. -/
+theorem add_remove_one_line_per_name (arg url : String) (script : List Ans) (hn : pySplit arg ≠ [])
+    (hl : (pySplit arg).length ≤ script.length) :
+    ((∀ a ∈ script.take (pySplit arg).length, NameAns serverCodes_add a) →
+      (protect (Action.add.run arg) (init url script)).outs.length = (pySplit arg).length ∧
+      (protect (Action.add.run arg) (init url script)).p.calls.length = (pySplit arg).length) ∧
+    ((∀ a ∈ script.take (pySplit arg).length, NameAns serverCodes_remove a) →
+      (protect (Action.remove.run arg) (init url script)).outs.length = (pySplit arg).length ∧
+      (protect (Action.remove.run arg) (init url script)).p.calls.length = (pySplit arg).length) := by
+  have hne : (pySplit arg).isEmpty = false := by
+    cases h : pySplit arg with
+    | nil => exact absurd h hn
+    | cons x xs => rfl
+  constructor
+  · intro ha
+    have hg : ¬ onNames do_add_g0 (pySplit arg) = true := by simp [onNames, do_add_g0, hne]
+    have hrun : Action.add.run arg (init url script) = (pySplit arg).foldl (fun s n => addOne n s) (init url script) := by
+      simp only [Action.run, doAdd, if_neg hg]
+    have key := oneLine_foldl addOne serverCodes_add addOne_one_line (pySplit arg) (init url script) rfl hl ha
+    have hp : protect (Action.add.run arg) (init url script) = Action.add.run arg (init url script) := by
+      have herr : (Action.add.run arg (init url script)).err = none := by rw [hrun]; exact key.1
+      simp only [protect, herr, net]
+    rw [hp, hrun]
+    exact ⟨by simpa [init] using key.2.1, by simpa [init] using key.2.2⟩
+  · intro ha
+    have hg : ¬ onNames do_remove_g0 (pySplit arg) = true := by simp [onNames, do_remove_g0, hne]
+    have hrun : Action.remove.run arg (init url script) = (pySplit arg).foldl (fun s n => removeOne n s) (init url script) := by
+      simp only [Action.run, doRemove, if_neg hg]
+    have key := oneLine_foldl removeOne serverCodes_remove removeOne_one_line (pySplit arg) (init url script) rfl hl ha
+    have hp : protect (Action.remove.run arg) (init url script) = Action.remove.run arg (init url script) := by
+      have herr : (Action.remove.run arg (init url script)).err = none := by rw [hrun]; exact key.1
+      simp only [protect, herr, net]
+    rw [hp, hrun]
+    exact ⟨by simpa [init] using key.2.1, by simpa [init] using key.2.2⟩
+
+/-- F45 as the code has it now: `remove` against a daemon that is shutting down words the fault per name -/
+example : (run "u" "remove foo bar" [.fault 6 "SHUTDOWN_STATE", .fault 6 "SHUTDOWN_STATE"]).outs =
+      ["ERROR: shutting down", "ERROR: shutting down"] ∧
+    (run "u" "remove foo bar" [.fault 6 "SHUTDOWN_STATE", .fault 6 "SHUTDOWN_STATE"]).p.exit = 1 ∧
+    (run "u" "remove foo bar" [.fault 6 "SHUTDOWN_STATE", .ok .unit]).outs = ["ERROR: shutting down", "bar: removed process group"] := by
+  decide
+
+/-- `pid <names>`: every fault getProcessInfo can raise for a name -- BAD_NAME, and SHUTDOWN_STATE when the daemon
+    began to shut down after the upcheck (F46) -- is worded for that name: one request, one line, no exception, and
+    the loop goes on with the next name -/
+theorem pid_one_line_per_name (name : String) (c : Int) (t : String) (rest : List Ans) (s : S) (h : s.err = none)
+    (hs : s.p.script = .fault c t :: rest) (hc : c ∈ serverCodes_getinfo) :
+    OneLine (pidOne name) s ∧ (pidOne name s).p.exit ≠ 0 := by
+  have hc' : c = 6 ∨ c = 10 := by simpa [serverCodes_getinfo, ctl_gen] using hc
+  unfold OneLine pidOne rpc guard
+  rcases hc' with rfl | rfl <;> simp [h, hs, ctl_gen, out, emit, setExit, setP, guard]
+
+/-- F46 as the code has it now -/
+example :
+    (run "u" "pid foo bar" [.ok (.str "3.0"), .fault 6 "SHUTDOWN_STATE", .ok (.info ⟨"bar", "bar", 20, "RUNNING", "", 7⟩)]).outs =
+      ["foo: ERROR (supervisor shutting down)", "7"] ∧
+    (run "u" "pid foo bar" [.ok (.str "3.0"), .fault 6 "SHUTDOWN_STATE", .ok (.info ⟨"bar", "bar", 20, "RUNNING", "", 7⟩)]).p.exit = 1 := by
+  decide
+
+
+/-! ## update: one result line per selected group (F47, open) -/
+
+/-- after a successful `reloadConfig` the action is the three loops, run from some state -/
+theorem update_is_loops (arg url : String) (added changed removed : List String) (rest : List Ans)
+    (herr : (Action.update.run arg (init url (.ok (.reload added changed removed) :: rest))).err = none) :
+    ∃ s' : S, Action.update.run arg (init url (.ok (.reload added changed removed) :: rest)) =
+      updApply (validOf arg) added changed removed s' := by
+  revert herr
+  simp only [Action.run, doUpdate, rpc, guard, init, Option.isSome_none, Bool.false_eq_true, if_false]
+  unfold updChecked
+  split
+  · intro _; exact ⟨_, rfl⟩
+  · unfold rpc guard
+    simp only [Option.isSome_none, Bool.false_eq_true, if_false]
+    cases rest with
+    | nil => simp [badScript, raise, guard]
+    | cons a rest2 =>
+      cases a with
+      | ok v => cases v <;> simp [badScript, raise, guard] <;> exact fun _ => ⟨_, rfl⟩
+      | fault c t => simp [raiseFault, raise, guard]
+      | proto c => simp [raise, guard]
+      | sock e => simp [raiseSock, raise, guard]
+
+/-- F47 (open).  Full statement: for every `reloadConfig` answer and whatever the server answers afterwards, every
+    group the command line selects among the removed, changed and added ones gets its result line ("removed /
+    updated / added process group", or "has problems; not removing / not updating" when its processes could not be
+    stopped).  It holds when no request inside the three loops raised (`herr`: the action itself ended without an
+    exception).  do_update catches nothing inside the loops, so a fault of stopProcessGroup / removeProcessGroup /
+    addProcessGroup for one group ends the action, and the groups after it are never handled and get no line
+    (`update_fault_loses_remaining_groups`).  Missing part: the runs in which such a request raises. -/
+theorem update_one_result_per_group_partial (arg url : String) (added changed removed : List String) (rest : List Ans)
+    (herr : (Action.update.run arg (init url (.ok (.reload added changed removed) :: rest))).err = none) :
+    (∀ g ∈ removed, skipped (validOf arg) g = false →
+      ∃ l ∈ (protect (Action.update.run arg) (init url (.ok (.reload added changed removed) :: rest))).outs,
+        l = g ++ ": removed process group" ∨ l = g ++ ": has problems; not removing") ∧
+    (∀ g ∈ changed, skipped (validOf arg) g = false →
+      ∃ l ∈ (protect (Action.update.run arg) (init url (.ok (.reload added changed removed) :: rest))).outs,
+        l = g ++ ": updated process group" ∨ l = g ++ ": has problems; not updating") ∧
+    (∀ g ∈ added, skipped (validOf arg) g = false →
+      ∃ l ∈ (protect (Action.update.run arg) (init url (.ok (.reload added changed removed) :: rest))).outs,
+        l = g ++ ": added process group") := by
+  have hp : protect (Action.update.run arg) (init url (.ok (.reload added changed removed) :: rest)) =
+      Action.update.run arg (init url (.ok (.reload added changed removed) :: rest)) := by
+    simp only [protect, herr, net]
+  obtain ⟨s', hs'⟩ := update_is_loops arg url added changed removed rest herr
+  rw [hp, hs']
+  rw [hs'] at herr
+  have key := updApply_lines (validOf arg) added changed removed s' herr
+  exact ⟨fun g hg hc => key.1 g hg (by simp [hc]), fun g hg hc => key.2.1 g hg (by simp [hc]),
+    fun g hg hc => key.2.2 g hg (by simp [hc])⟩
+
+-- non-vacuity: a run with one removed, one changed and one added group that raised nothing
+example : (Action.update.run "" (init "u" [.ok (.reload ["n"] ["c"] ["r"]), .ok (.results []), .ok .unit,
+      .ok (.results [⟨"c", "c", 80, "OK"⟩]), .ok .unit, .ok .unit, .ok .unit])).err = none ∧
+    (run "u" "update" [.ok (.reload ["n"] ["c"] ["r"]), .ok (.results []), .ok .unit,
+      .ok (.results [⟨"c", "c", 80, "OK"⟩]), .ok .unit, .ok .unit, .ok .unit]).outs =
+      ["r: stopped", "r: removed process group", "c: stopped", "c: updated process group", "n: added process group"] := by
+  decide
+
+/-- F47, the counterexample: groups a and b are to be removed; a still has a process in state STOPPING, so
+    stopProcessGroup(a) answers [] and removeProcessGroup(a) answers STILL_RUNNING; the fault is re-raised, one
+    generic "error: ..." line is printed, and group b is never asked about (3 calls, no line for b) although the
+    server would have stopped and removed it -/
+theorem update_fault_loses_remaining_groups :
+    (run "u" "update" [.ok (.reload [] [] ["a", "b"]), .ok (.results []), .fault 91 "STILL_RUNNING: a",
+      .ok (.results [⟨"b", "b", 80, "OK"⟩]), .ok .unit]).outs = ["a: stopped", "error: Fault"] ∧
+    (run "u" "update" [.ok (.reload [] [] ["a", "b"]), .ok (.results []), .fault 91 "STILL_RUNNING: a",
+      .ok (.results [⟨"b", "b", 80, "OK"⟩]), .ok .unit]).p.calls.length = 3 ∧
+    (run "u" "update" [.ok (.reload [] [] ["a", "b"]), .ok (.results []), .fault 91 "STILL_RUNNING: a",
+      .ok (.results [⟨"b", "b", 80, "OK"⟩]), .ok .unit]).p.exit = 1 := by
+  decide
+
+
 example : (run "u" "start g:* foo" [.ok (.str "3.0"), .ok (.results []), .ok .unit]).p.calls.map renderCall =
     ["getVersion()", "startProcessGroup(g)", "startProcess(foo)"] := by decide
 end Sv.Props.C20
